@@ -238,7 +238,8 @@ impl ToTokens for DisplayImplArmFragment {
 
     let ts = match &self.content {
       VariantContent::Unit => {
-        let serde_name = &self.serde_name;
+        // The value is used as a format template: escape braces so it is written verbatim.
+        let serde_name = self.serde_name.replace('{', "{{").replace('}', "}}");
         quote! { Self::#variant_name => write!(f, #serde_name), }
       }
       VariantContent::Tuple(_) => {
